@@ -49,6 +49,12 @@ public:
 		return filterList.remove(filterHandle);
 	}
 
+	void swap(MixinFilter & other) noexcept
+	{
+		super::swap(other);
+		filterList.swap(other.filterList);
+	}
+
 	template <typename ...Args>
 	bool mixinBeforeDispatch(Args && ...args) const {
 		if(! filterList.empty()) {
